@@ -61,11 +61,15 @@ def text_imports(text: str, state: dict[str, int]) -> list[str]:
 
 
 class LoadModel:
-	"""Mirror of Modules.__modules for the known-finding signature (not an oracle)."""
+	"""Mirror of Modules.__modules for the known-finding signature (not an oracle).
+
+	`ever_broken`: modules that are (or were, since they were last loaded) listed as loaded while a module of their import closure
+	was not — their own analysis, or that of modules loaded on top of them, may have seen the hole."""
 
 	def __init__(self, imports: dict[str, list[str]]) -> None:
 		self.imports = imports
 		self.loaded: set[str] = set()
+		self.ever_broken: set[str] = set()
 
 	def load(self, m: str) -> None:
 		if m in self.loaded:
@@ -77,20 +81,35 @@ class LoadModel:
 	def unload(self, m: str) -> None:
 		self.loaded.discard(m)
 
-	def broken_from(self, targets: list[str]) -> bool:
-		"""Some loaded module reachable from the targets imports a module that is no longer loaded."""
+	def reach(self, targets: list[str]) -> set[str]:
 		seen: set[str] = set()
 		todo = list(targets)
 		while todo:
 			m = todo.pop()
-			if m in seen or m not in self.loaded:
+			if m in seen:
 				continue
 			seen.add(m)
-			for d in self.imports.get(m, []):
-				if d not in self.loaded:
-					return True
-				todo.append(d)
-		return False
+			todo.extend(self.imports.get(m, []))
+		return seen
+
+	def broken_from(self, targets: list[str]) -> bool:
+		"""Some loaded module reachable from the targets imports a module that is no longer loaded, or was analysed over such a hole."""
+		reach = self.reach(targets)
+		if reach & self.ever_broken:
+			return True
+		return any(d not in self.loaded for m in reach if m in self.loaded for d in self.imports.get(m, []))
+
+	def resync(self, loaded_now: set[str]) -> None:
+		"""Adopt what the live process reports and update the ever-broken marks."""
+		newly = loaded_now - self.loaded
+		gone = self.loaded - loaded_now
+		self.loaded = set(loaded_now)
+		self.ever_broken -= gone
+		for m in sorted(self.loaded):
+			reach = self.reach([m])
+			holes = any(d not in self.loaded for x in reach if x in self.loaded for d in self.imports.get(x, []))
+			if holes or (m in newly and (reach - {m}) & self.ever_broken):
+				self.ever_broken.add(m)
 
 
 def op_key(op: dict[str, Any]) -> str:
@@ -185,7 +204,7 @@ class C04Runner:
 			broken = broken or model.broken_from(targets)
 			if 'loaded' in r:
 				# re-synchronise the mirror with what the live process reports (a failed request stops loading midway)
-				model.loaded = set(r['loaded'])
+				model.resync(set(r['loaded']))
 			if op.get('comp'):
 				continue
 			if count:
@@ -225,7 +244,11 @@ class C04Runner:
 						self.bump('probes', 'runner files == fresh process (canonical order)')
 			if r['status'] == 'error':
 				aborted = True
+			skip = importers_of(imports, op['m']) if 'm' in op else set()
 			for m, (b, a) in (r.get('isolation') or {}).items():
+				if m in skip:
+					# symbols of a module that imports the operated one are resolved lazily against it; only unrelated modules are watched
+					continue
 				if count:
 					self.bump('probes', 'isolation observation (forked grandchild)')
 				if b != a:
@@ -367,6 +390,10 @@ class C04(Engine):
 		return {'pool': pool, 'state': state, 'flavour': flavour, 'cache': cache, 'ops': ops}
 
 	def execute(self, case: dict[str, Any]) -> dict[str, Any]:
+		if case.get('kind') == 'hashseed':
+			res = exec_spot_checks(1, pool=case['pool'])
+			vs = [{'class': 'hash-seed-changes-output', 'detail': m['detail'], 'known': None, 'sig': 'hashseed'} for m in res['mismatches']]
+			return {'violations': vs, 'counters': {}, 'distinct': [], 'states': [], 'log': digest(res['mismatches']), 'processes': 0, 'sim_time_s': 0.0}
 		return C04Runner(case).execute()
 
 	def minimise(self, case: dict[str, Any], vclass: str) -> dict[str, Any]:
@@ -381,7 +408,7 @@ class C04(Engine):
 		return {'shape': case['pool']['shape'], 'modules': case['pool']['modules'], 'flavour': case.get('flavour'), 'cache': str(case.get('cache')), 'ops': [{k: (v if k != 'text' else v[:40] + '...') for k, v in op.items()} for op in case['ops'][:16]]}
 
 
-def exec_spot_checks(n: int) -> dict[str, Any]:
+def exec_spot_checks(n: int, pool: dict[str, Any] | None = None) -> dict[str, Any]:
 	"""Fresh answers recomputed in exec'd interpreters under PYTHONHASHSEED 0, 1 and a seeded value must agree with each other (hash-seed clause)
 	and with the fork-fresh answer."""
 	from tranpsim.core import master_seed, rng_for
@@ -390,10 +417,10 @@ def exec_spot_checks(n: int) -> dict[str, Any]:
 	mismatches: list[dict[str, Any]] = []
 	seeds_used: list[str] = []
 	for j in range(n):
-		pool = pools.fixed_pool(j) if j < 2 else pools.gen_pool(rng, allow_invalid=False)
-		proj = Project(pool, tag='spot')
+		this_pool = pool or (pools.fixed_pool(j) if j < 2 else pools.gen_pool(rng, allow_invalid=False))
+		proj = Project(this_pool, tag='spot')
 		try:
-			spec = {'root': proj.sc.root, 'modules': pool['modules'], 'cache_enabled': False}
+			spec = {'root': proj.sc.root, 'modules': this_pool['modules'], 'cache_enabled': False}
 			answers = {}
 			hs = ['0', '1', str(rng.randrange(2, 4_000_000))]
 
@@ -409,14 +436,14 @@ def exec_spot_checks(n: int) -> dict[str, Any]:
 				for h, a in zip(hs, tp.map(one, hs)):
 					answers[h] = a
 					seeds_used.append(h)
-			rec = sim_process(proj.sc.root, session_task('runner', pool['modules'], [{'op': 'transpile', 'm': m} for m in pool['modules']], False))
-			fork = {m: r.get('text') for m, r in zip(pool['modules'], rec.get('result') or [])}
+			rec = sim_process(proj.sc.root, session_task('runner', this_pool['modules'], [{'op': 'transpile', 'm': m} for m in this_pool['modules']], False))
+			fork = {m: r.get('text') for m, r in zip(this_pool['modules'], rec.get('result') or [])}
 			answers['fork'] = fork
 			base = answers[hs[0]]
 			for h, a in answers.items():
 				if a != base:
-					m = next(m for m in pool['modules'] if a.get(m) != base.get(m))
-					mismatches.append({'case': {'pool': pool, 'ops': [], 'kind': 'hashseed'}, 'detail': {'hashseed_or_fork': h, 'module': m, **line_diff(a.get(m), base.get(m))}})
+					m = next(m for m in this_pool['modules'] if a.get(m) != base.get(m))
+					mismatches.append({'case': {'pool': this_pool, 'ops': [], 'kind': 'hashseed'}, 'detail': {'hashseed_or_fork': h, 'module': m, **line_diff(a.get(m), base.get(m))}})
 			done += 1
 		finally:
 			proj.destroy()
